@@ -3,15 +3,15 @@
 (* Events: QDim (dimension set of each quantity type, derived from the symbol of its standard    *)
 (* unit by Trace_Units), Rel (one per relation with its measured fingerprint), Twin, Pair, Def.  *)
 (* State: the types and relations declared so far; Twin/Pair/Def events must refer to them.      *)
-EXTENDS Relations, Definitions, Json, IOUtils, TLC, Sequences
+EXTENDS Relations, Theory, Json, IOUtils, TLC, Sequences, SequencesExt
 
-CONSTANTS BudgetEquiv, BudgetInverse, BudgetDef
+CONSTANTS BudgetEquiv, BudgetInverse, BudgetDef, BudgetTheory
 Facts == ndJsonDeserialize(IOEnv.FACTS)
-VARIABLES l, qdim, qshape, rel, bad, stat
-vars == <<l, qdim, qshape, rel, bad, stat>>
-Init == /\ l = 1 /\ qdim = ("Number" :> DZero) /\ qshape = ("Number" :> 1) /\ rel = <<>> /\ bad = <<>>
+VARIABLES l, qdim, qshape, rel, bad, stat, thseen
+vars == <<l, qdim, qshape, rel, bad, stat, thseen>>
+Init == /\ l = 1 /\ qdim = ("Number" :> DZero) /\ qshape = ("Number" :> 1) /\ rel = <<>> /\ bad = <<>> /\ thseen = {} /\ ModelsOK
         /\ stat = [rels |-> 0, twins |-> 0, pairs |-> 0, pairs_decided |-> 0, defs |-> 0, other |-> 0,
-                 equiv |-> 0, twinnum |-> 0, inverse |-> 0, tensordefs |-> 0, monoreal |-> 0, tensordefreal |-> 0, opnative |-> 0, solved |-> 0]
+                 equiv |-> 0, twinnum |-> 0, inverse |-> 0, tensordefs |-> 0, monoreal |-> 0, tensordefreal |-> 0, opnative |-> 0, solved |-> 0, theory |-> 0, theory_relations |-> 0]
 IsEvent(e) == l <= Len(Facts) /\ Facts[l].e = e /\ l' = l + 1
 V(cls, key, detail) == [cls |-> cls, key |-> key, detail |-> detail]
 Judge(checks) == bad' = bad \o [i \in 1..Len(SelectSeq(checks, LAMBDA c : ~c[1])) |->
@@ -23,7 +23,7 @@ AllScalar(r) == qshape[r.ret] = 1 /\ \A a \in 1..Len(r.args) : qshape[r.args[a]]
 TQDim == LET r == Facts[l] IN
   /\ IsEvent("QDim") /\ r.name \notin DOMAIN qdim /\ IsDim(r.dims)
   /\ qdim' = qdim @@ (r.name :> r.dims) /\ qshape' = qshape @@ (r.name :> r.ncomp)
-  /\ UNCHANGED <<rel, bad, stat>>
+  /\ UNCHANGED <<rel, bad, stat, thseen>>
 
 TRel == LET r == Facts[l] IN
   /\ IsEvent("Rel") /\ r.id \notin DOMAIN rel
@@ -42,7 +42,7 @@ TRel == LET r == Facts[l] IN
                  [] OTHER                -> << <<FALSE, V("inconclusive_fingerprint", r.name, r.ret)>> >>))
   /\ rel' = rel @@ (r.id :> r)
   /\ stat' = [stat EXCEPT !.rels = @ + 1, !.other = @ + (IF r.cls = "other" THEN 1 ELSE 0)]
-  /\ UNCHANGED <<qdim, qshape>>
+  /\ UNCHANGED <<qdim, qshape, thseen>>
 
 (* operator  A op B -> C  and constructor  C(A,B) (perm 0) or C(B,A) (perm 1) *)
 TTwin == LET r == Facts[l] IN
@@ -52,7 +52,7 @@ TTwin == LET r == Facts[l] IN
      /\ Permute(c.args, r.perm) = o.args
      /\ Judge(<< <<TwinOK(Fp(o), Fp(c), r.perm), V("twin_mismatch", o.name, c.name)>> >>)
   /\ stat' = [stat EXCEPT !.twins = @ + 1]
-  /\ UNCHANGED <<qdim, qshape, rel>>
+  /\ UNCHANGED <<qdim, qshape, rel, thseen>>
 
 TPair == LET r == Facts[l] IN
   /\ IsEvent("Pair") /\ r.fwd \in DOMAIN rel /\ r.back \in DOMAIN rel
@@ -65,7 +65,7 @@ TPair == LET r == Facts[l] IN
                  <<InverseDecidable(Fp(f), Fp(g)), V("inconclusive_pair", f.name, g.name)>> >>)
      /\ stat' = [stat EXCEPT !.pairs = @ + 1,
                              !.pairs_decided = @ + (IF InverseDecidable(Fp(f), Fp(g)) THEN 1 ELSE 0)]
-  /\ UNCHANGED <<qdim, qshape, rel>>
+  /\ UNCHANGED <<qdim, qshape, rel, thseen>>
 
 (* C18: a named definition must exist in the graph and carry the textbook fingerprint *)
 TDef == LET r == Facts[l] IN
@@ -78,7 +78,7 @@ TDef == LET r == Facts[l] IN
              /\ x.ret = d.ret /\ x.args = d.args
              /\ Judge(<< <<DefinitionOK(d, Fp(x)), V("definition_formula", r.def, x.name)>> >>)
   /\ stat' = [stat EXCEPT !.defs = @ + 1]
-  /\ UNCHANGED <<qdim, qshape, rel>>
+  /\ UNCHANGED <<qdim, qshape, rel, thseen>>
 
 (* ---- numeric layer: abstract events measured on the real code in float, double, long double ---- *)
 (* C03-B: rescaling the seven base units by independent powers of two rescales the result by the   *)
@@ -88,19 +88,19 @@ TEquiv == LET r == Facts[l] IN
   /\ Judge(<< <<r.nonfinite = 0 /\ r.ulps <= BudgetEquiv, V("not_equivariant", rel[r.id].name, r.num)>>,
               <<r.n > 0, V("inconclusive_equiv", rel[r.id].name, r.num)>> >>)
   /\ stat' = [stat EXCEPT !.equiv = @ + 1]
-  /\ UNCHANGED <<qdim, qshape, rel>>
+  /\ UNCHANGED <<qdim, qshape, rel, thseen>>
 (* C04-B: every operator instance returns, bit for bit, the native (correctly rounded) operation on the stored values in the written order *)
 TOpNative == LET r == Facts[l] IN
   /\ IsEvent("OpNative") /\ r.id \in DOMAIN rel /\ rel[r.id].kind = "op" /\ r.n > 0
   /\ Judge(<< <<r.diff = 0, V("op_not_native", rel[r.id].name, r.num)>> >>)
   /\ stat' = [stat EXCEPT !.opnative = @ + 1]
-  /\ UNCHANGED <<qdim, qshape, rel>>
+  /\ UNCHANGED <<qdim, qshape, rel, thseen>>
 (* C04-B: a constructor twin returns the bit-identical value of its operator *)
 TTwinNum == LET r == Facts[l] IN
   /\ IsEvent("TwinNum") /\ r.op \in DOMAIN rel /\ r.ctor \in DOMAIN rel
   /\ Judge(<< <<r.diff = 0, V("twin_value_differs", rel[r.op].name, rel[r.ctor].name)>> >>)
   /\ stat' = [stat EXCEPT !.twinnum = @ + 1]
-  /\ UNCHANGED <<qdim, qshape, rel>>
+  /\ UNCHANGED <<qdim, qshape, rel, thseen>>
 (* C05-B: composing the two relations returns the original within BudgetInverse ulps (twice that *)
 (* when a square root is involved; times kappa = 8 for the rational heat-capacity-ratio forms,   *)
 (* whose round trip has condition number gamma/(gamma-1) <= 5 on the admissible states drawn)    *)
@@ -110,7 +110,7 @@ TInverse == LET r == Facts[l] IN
                 V("round_trip", rel[r.fwd].name, rel[r.back].name)>>,
               <<r.n > 0, V("inconclusive_round_trip", rel[r.fwd].name, rel[r.back].name)>> >>)
   /\ stat' = [stat EXCEPT !.inverse = @ + 1]
-  /\ UNCHANGED <<qdim, qshape, rel>>
+  /\ UNCHANGED <<qdim, qshape, rel, thseen>>
 
 (* C18: a relation among exactly the quantity types of a named definition states the same identity, solved for another variable *)
 TSolved == LET r == Facts[l] IN
@@ -119,7 +119,7 @@ TSolved == LET r == Facts[l] IN
      /\ {x.ret} \cup {x.args[i] : i \in 1..Len(x.args)} = {d.ret} \cup {d.args[i] : i \in 1..Len(d.args)}
      /\ Judge(<< <<x.cls \notin {"mono", "linear"} \/ SolvedOK(d, x.ret, x.args, Fp(x)), V("definition_solved_form", r.def, x.name)>> >>)
   /\ stat' = [stat EXCEPT !.solved = @ + 1]
-  /\ UNCHANGED <<qdim, qshape, rel>>
+  /\ UNCHANGED <<qdim, qshape, rel, thseen>>
 (* C18 tensor-valued definitions on integer tensors (exact): recorded through the relations evaluator *)
 TTensorDef == LET r == Facts[l] IN
   /\ IsEvent("TensorDef") /\ r.rel \in DOMAIN rel
@@ -132,24 +132,43 @@ TTensorDef == LET r == Facts[l] IN
                   [] r.def = "isotropic_stress"   -> StressOfPressure(r.a[1]) = r.out,
                 V("tensor_definition", rel[r.rel].name, r.def)>> >>)
   /\ stat' = [stat EXCEPT !.tensordefs = @ + 1]
-  /\ UNCHANGED <<qdim, qshape, rel>>
+  /\ UNCHANGED <<qdim, qshape, rel, thseen>>
 (* C18 numeric layer: every all-scalar monomial relation against c * prod x^p in __float128; tensor definitions against their formulas *)
 TMonoReal == LET r == Facts[l] IN
   /\ IsEvent("MonoReal") /\ r.id \in DOMAIN rel /\ r.num \in {"f", "d", "l"}
   /\ Judge(<< <<r.nonfinite = 0 /\ r.ulps <= (IF r.sqrt = 1 THEN 2 * BudgetDef ELSE BudgetDef), V("formula_value", rel[r.id].name, r.num)>>,
               <<r.n > 0, V("inconclusive_formula_value", rel[r.id].name, r.num)>> >>)
   /\ stat' = [stat EXCEPT !.monoreal = @ + 1]
-  /\ UNCHANGED <<qdim, qshape, rel>>
+  /\ UNCHANGED <<qdim, qshape, rel, thseen>>
 TTensorDefReal == LET r == Facts[l] IN
   /\ IsEvent("TensorDefReal") /\ r.id \in DOMAIN rel
   /\ Judge(<< <<r.nonfinite = 0 /\ r.ulps <= 2 * BudgetDef, V("tensor_definition_value", rel[r.id].name, r.num)>> >>)
   /\ stat' = [stat EXCEPT !.tensordefreal = @ + 1]
+  /\ UNCHANGED <<qdim, qshape, rel, thseen>>
+
+(* C18, derived forms: the relation evaluated on the real code AT a model of the theory (Theory.tla; the argument values are the   *)
+(* specification's, handed to the harness by MC_Theory) returns the state's value of its result type.  The harness reports the    *)
+(* result snapped to the nearest small rational and its distance from it in ulps of the numeric type.                              *)
+TTheory == LET r == Facts[l] IN
+  /\ IsEvent("Theory") /\ r.rel \in DOMAIN rel /\ r.state \in 1..Len(TheoryStates) /\ r.num \in {"f", "d", "l"}
+  /\ <<r.rel, r.state, r.num>> \notin thseen
+  /\ LET x == rel[r.rel]  s == TheoryStates[r.state] IN
+     /\ InTheory(x.ret, x.args)
+     /\ r.args = TheoryArgs(s, x.args)                                  \* the harness evaluated the relation at the specification's state
+     /\ Judge(<< <<r.finite /\ TheoryResultOK(s, x.ret, r.out) /\ r.ulps <= BudgetTheory, V("theory_consistency", x.name, r.num)>> >>)
+  /\ thseen' = thseen \cup {<<r.rel, r.state, r.num>>}
+  /\ stat' = [stat EXCEPT !.theory = @ + 1]
   /\ UNCHANGED <<qdim, qshape, rel>>
 
+(* every relation the theory decides has been evaluated at every state in every numeric type *)
+TheoryRelations == {id \in DOMAIN rel : InTheory(rel[id].ret, rel[id].args)}
+TheoryUncovered == {id \in TheoryRelations : \E k \in 1..Len(TheoryStates), num \in {"f", "d", "l"} : <<id, k, num>> \notin thseen}
 TFinish == /\ l = Len(Facts) + 1 /\ l' = l + 1
-           /\ JsonSerialize(IOEnv.OUT, [bad |-> bad, stat |-> stat])
-           /\ UNCHANGED <<qdim, qshape, rel, bad, stat>>
-Next == TQDim \/ TRel \/ TTwin \/ TPair \/ TDef \/ TEquiv \/ TOpNative \/ TTwinNum \/ TInverse \/ TSolved \/ TTensorDef \/ TMonoReal \/ TTensorDefReal \/ TFinish
+           /\ LET unc == SetToSeq(TheoryUncovered)
+                  final == bad \o [i \in 1..Len(unc) |-> V("theory_uncovered", rel[unc[i]].name, "")] IN
+              JsonSerialize(IOEnv.OUT, [bad |-> final, stat |-> [stat EXCEPT !.theory_relations = Cardinality(TheoryRelations)]])
+           /\ UNCHANGED <<qdim, qshape, rel, bad, stat, thseen>>
+Next == TQDim \/ TRel \/ TTwin \/ TPair \/ TDef \/ TEquiv \/ TOpNative \/ TTwinNum \/ TInverse \/ TSolved \/ TTensorDef \/ TMonoReal \/ TTensorDefReal \/ TTheory \/ TFinish
 Spec == Init /\ [][Next]_vars
 Accepted == TLCGet("stats").diameter - 2 = Len(Facts)
 =============================================================================
